@@ -681,6 +681,7 @@ func (x *Exec) loopHeader(st *State, fr *Frame, h *ssa.BasicBlock, pred *ssa.Bas
 		setPhis(incoming)
 		env := x.frameEnv(st, fr)
 		env.traceBase = rec.traceLen // nemitted()/evis()/count() in invariants speak about this iteration
+		env.atHeader = rec.atHeader  // atheader(v): the value v had when this iteration started
 		if spec != nil {
 			for i, inv := range spec.Inv {
 				lbl := inv.Label
@@ -844,6 +845,12 @@ func (x *Exec) loopHeader(st *State, fr *Frame, h *ssa.BasicBlock, pred *ssa.Bas
 		if spec.Decr != nil {
 			d := env.typed(env.eval(spec.Decr.Expr), types.Typ[types.Int])
 			rec.decr = scalar(types.Typ[types.Int], KInt, st.define("variant", x.toIdx(st, d)))
+		}
+	}
+	rec.atHeader = map[string]*Val{}
+	for _, phi := range phis {
+		if phi.Comment != "" {
+			rec.atHeader[phi.Comment] = hv[phi]
 		}
 	}
 	st.loops = append(st.loops, rec)
